@@ -25,6 +25,9 @@ Elim(G, S, d) == IF S = {} THEN d ELSE LET v == CHOOSE u \in S : \A w \in S : De
 ASSUME \A G \in G4 \cup G5 : Degeneracy(G) = Elim(G, Verts(G.n), 0)
 (* distances are a metric on components; girth through cycle counts; blocks cover every edge exactly once *)
 ASSUME \A G \in G4 : \A a, b \in Verts(G.n) : Dist(G, a, b) = Dist(G, b, a) /\ (Dist(G, a, b) = 0) = (a = b) /\ (Dist(G, a, b) = 1) = Adj(G, a, b)
+(* cycles through closed walks = cycles as 2-regular connected edge subsets *)
+IsCycleEdgeSet(G, F) == F # {} /\ LET VS == UNION F IN (\A v \in VS : Cardinality({ e \in F : v \in e }) = 2) /\ ConnectedOn([n |-> G.n, E |-> F], VS)
+ASSUME \A G \in G4 \cup { H \in G5 : NumEdges(H) >= 8 } : \A L \in 0..G.n : NumCycles(G, L) = Cardinality({ F \in SUBSET G.E : Cardinality(F) = L /\ IsCycleEdgeSet(G, F) })
 ASSUME \A G \in G4 : (Girth(G) = -1) = (\A L \in 3..G.n : NumCycles(G, L) = 0) /\ \A L \in 3..G.n : NumInducedCycles(G, L) <= NumCycles(G, L)
 ASSUME \A G \in G4 : \A e \in G.E : Cardinality({ B \in Blocks(G) : e \subseteq B }) = 1
 ASSUME \A G \in G4 : \A v \in Verts(G.n) : (v \in CutVertices(G)) = (Cardinality({ B \in Blocks(G) : v \in B }) >= 2)
